@@ -29,6 +29,16 @@ def handle : List String → Option String
     pure (showDigest (match r with | .ok b => .ok b.intoInner | .err e => .err e | .panic w => .panic w))
   | ["replace", b, s, e, r] => do
     pure (showRes (replace (← bytesOfHex b) (← s.toNat?) (← e.toNat?) (← bytesOfHex r) []))
+  -- replaceseq <body> [s:e:r,…] : the edits of one response body, one after the other (as the nonce rewrite does)
+  | ["replaceseq", b, ops] => do
+    let body ← bytesOfHex b
+    let os ← (← parseList ops).mapM (fun o => match o.splitOn ":" with
+      | [s, e, r] => do pure (← s.toNat?, ← e.toNat?, ← bytesOfHex r)
+      | _ => none)
+    let r : Res Unit (List UInt8) := os.foldl (fun acc (o : Nat × Nat × List UInt8) => match acc with
+      | .ok cur => replace cur o.1 o.2.1 o.2.2 []
+      | other => other) (.ok body)
+    pure (showRes r)
   -- read <init> <spareLen> <stream> [sched] <max|umax>
   | ["read", i, sp, st, sc, m] => do
     let init ← bytesOfHex i
